@@ -5,6 +5,7 @@ package main
 // havoc (calls.go).
 
 import (
+	"os"
 	"fmt"
 	"go/ast"
 	"go/token"
@@ -149,28 +150,35 @@ func (fr *Frame) findLoops() {
 	for i, h := range hs {
 		fr.loops[h].ord = i + 1
 		fr.loopOrd[h] = i + 1
+		if os.Getenv("GOVC_DEBUG_LOOPS") != "" {
+			fmt.Fprintf(os.Stderr, "LOOP %s #%d header b%d at %s\n", fr.fn.Name(), i+1, h.Index, fr.vc.P.Fset.Position(blockPos(h)))
+		}
 	}
 }
 
 func blockPos(b *ssa.BasicBlock) token.Pos {
 	best := token.NoPos
-	for _, in := range b.Instrs {
-		p := in.Pos()
-		if d, ok := in.(*ssa.DebugRef); ok {
-			p = d.Expr.Pos()
-		}
-		if p != token.NoPos && (best == token.NoPos || p < best) {
-			best = p
+	// (a Phi reports the position of the variable's declaration, which may lie before an
+	// earlier loop: phis never contribute to a loop's source position)
+	scan := func(blk *ssa.BasicBlock) {
+		for _, in := range blk.Instrs {
+			if _, isPhi := in.(*ssa.Phi); isPhi {
+				continue
+			}
+			p := in.Pos()
+			if d, ok := in.(*ssa.DebugRef); ok {
+				p = d.Expr.Pos()
+			}
+			if p != token.NoPos && (best == token.NoPos || p < best) {
+				best = p
+			}
 		}
 	}
+	scan(b)
 	if best == token.NoPos {
 		// look into loop body successors
 		for _, s := range b.Succs {
-			for _, in := range s.Instrs {
-				if p := in.Pos(); p != token.NoPos && (best == token.NoPos || p < best) {
-					best = p
-				}
-			}
+			scan(s)
 		}
 	}
 	return best
@@ -179,15 +187,81 @@ func blockPos(b *ssa.BasicBlock) token.Pos {
 func isBackEdge(from, to *ssa.BasicBlock) bool { return to.Dominates(from) }
 
 func (fr *Frame) collectNames() {
-	for _, b := range fr.fn.Blocks {
-		for i, in := range b.Instrs {
-			if d, ok := in.(*ssa.DebugRef); ok {
-				if id, ok := d.Expr.(*ast.Ident); ok {
-					fr.names[id.Name] = append(fr.names[id.Name], nameDef{d.X, d.IsAddr, b, i, id.Pos()})
+	// x/tools v0.29 go/ssa records the defining occurrence of `x := T{...}` / `var x = T{...}`
+	// (composite-literal initialisers) with the variable's value BEFORE the store, i.e. its zero
+	// value, and emits no reference after the store. Such a definition is re-pointed at the
+	// DebugRef of the initialiser expression itself; if that cannot be found the definition is
+	// dropped, so that a contract naming the variable fails to resolve instead of silently
+	// denoting the zero value.
+	initOf := map[token.Pos]ast.Expr{} // defining ident position -> composite-literal initialiser
+	if syn := fr.fn.Syntax(); syn != nil {
+		ast.Inspect(syn, func(n ast.Node) bool {
+			switch t := n.(type) {
+			case *ast.AssignStmt:
+				if t.Tok == token.DEFINE && len(t.Lhs) == len(t.Rhs) {
+					for i, l := range t.Lhs {
+						if id, ok := l.(*ast.Ident); ok && isCompositeInit(t.Rhs[i]) {
+							initOf[id.Pos()] = t.Rhs[i]
+						}
+					}
+				}
+			case *ast.ValueSpec:
+				if len(t.Names) == len(t.Values) {
+					for i, id := range t.Names {
+						if isCompositeInit(t.Values[i]) {
+							initOf[id.Pos()] = t.Values[i]
+						}
+					}
+				}
+			}
+			return true
+		})
+	}
+	type exprRef struct {
+		val ssa.Value
+		b   *ssa.BasicBlock
+		i   int
+	}
+	exprRefs := map[ast.Expr]exprRef{}
+	if len(initOf) > 0 {
+		for _, b := range fr.fn.Blocks {
+			for i, in := range b.Instrs {
+				if d, ok := in.(*ssa.DebugRef); ok && !d.IsAddr {
+					if _, isId := d.Expr.(*ast.Ident); !isId {
+						exprRefs[d.Expr] = exprRef{d.X, b, i}
+					}
 				}
 			}
 		}
 	}
+	for _, b := range fr.fn.Blocks {
+		for i, in := range b.Instrs {
+			if d, ok := in.(*ssa.DebugRef); ok {
+				if id, ok := d.Expr.(*ast.Ident); ok {
+					nd := nameDef{d.X, d.IsAddr, b, i, id.Pos()}
+					if init, stale := initOf[id.Pos()]; stale {
+						if _, isConst := d.X.(*ssa.Const); isConst {
+							er, found := exprRefs[ast.Unparen(init)]
+							if !found || !types.Identical(er.val.Type(), d.X.Type()) {
+								continue
+							}
+							nd = nameDef{er.val, false, er.b, er.i, id.Pos()}
+						}
+					}
+					fr.names[id.Name] = append(fr.names[id.Name], nd)
+				}
+			}
+		}
+	}
+}
+
+func isCompositeInit(e ast.Expr) bool {
+	e = ast.Unparen(e)
+	if u, ok := e.(*ast.UnaryExpr); ok && u.Op == token.AND {
+		e = ast.Unparen(u.X)
+	}
+	_, ok := e.(*ast.CompositeLit)
+	return ok
 }
 
 // rpo returns blocks in reverse post-order ignoring back edges.
@@ -393,7 +467,9 @@ func (fr *Frame) enterBlock(b *ssa.BasicBlock) *State {
 	}
 	if li != nil {
 		mod := fr.loopModSet(li)
-		st.heap = vc.heapHavoc(st.heap, mod)
+		save := fr.cur
+		st.heap = fr.keepLocals(vc.heapHavoc(st.heap, mod), li)
+		_ = save
 		st.now = vc.fresh("now", "Int")
 		// now is monotone
 		for _, n := range nows {
